@@ -6,7 +6,7 @@ import ast
 from ..core import AnalysisError, call_attr, call_name, calls_in, func_params, norm, short
 from ..driver import Knockout, sub_nth, sub_once
 from ..report import Ctx
-from ..rules import numeric
+from ..rules import numeric, shapes
 from ..rules.numeric import DMF, DMS
 
 METRICS = "graphiq/metrics.py"
@@ -28,6 +28,7 @@ def run(ctx: Ctx) -> None:
     numeric.rule_raise_warning(ctx, [(DMF, "fidelity"), (DMF, "trace_distance"), (DMF, "partial_trace"),
                                      (METRICS, "Infidelity.evaluate"), (METRICS, "TraceDistance.evaluate")])
     rule_rep_dispatch(ctx)
+    shapes.rule_trace_distance_shape(ctx)
     ctx.floor("num.adjoint", 15)
     ctx.floor("num.raise-warning", 8)
 
@@ -67,6 +68,8 @@ def rule_rep_dispatch(ctx: Ctx) -> None:
 
 
 KNOCKOUTS = [
+    Knockout("dist-half", DMF, sub_once("    return 0.5 * np.sum(np.abs(eigvals))", "    return np.sum(np.abs(eigvals))"), "dist.shape", "trace_distance"),
+    Knockout("fid-pure-and", DMF, sub_once("    if is_pure(rho) or is_pure(sigma):", "    if is_pure(rho) and is_pure(sigma):"), "dist.shape", "fidelity"),
     Knockout("G1-drop-conjugate-channel", DMS,
              sub_once("tmp_state = tmp_state + kraus_ops[i] @ self._data @ np.conjugate(\n                    kraus_ops[i].T\n                )",
                       "tmp_state = tmp_state + kraus_ops[i] @ self._data @ kraus_ops[i].T"),
